@@ -1,11 +1,12 @@
 (* C08 correspondence: traces observed on the real db.changeCache by the Go harness
    (harness/db/verif_c08_test.go) are replayed here on the model with vm_compute.  After every
    operation the harness records nextSequence, the pending (Sequence,EndSequence) pairs sorted, the
-   receivedSeqs keys sorted, the skipped list with touching ranges merged, _getMaxStableCached, and the
+   receivedSeqs keys sorted, the keys (Start,End) of the skip list's elements one by one (the element structure
+   matters: CleanSkippedSequenceQueue abandons whole elements), _getMaxStableCached, and the
    calls that reached the channel cache during the operation (kind, sequence, end, Skipped flag,
    whether the sequence was still in the skipped list at the time of the call); at the end of the
    trace, the sequences held by the "*" channel cache and its late-sequence log. *)
-From SG Require Export Base.Prelude C08.SkippedSet C08.SeqBuffer C08.ChanLayer.
+From SG Require Export Base.Prelude C08.SkippedSet C08.SeqBuffer C08.ChanLayer C08.SeqBufferInv C08.SeqBufferCons C08.DocFeed C08.DocFeedProofs C08.DocCheck.
 Open Scope N_scope.
 
 Record obs := mkO { o_next : N; o_pend : list (N * N); o_recv : list N; o_skip : list rng;
@@ -17,7 +18,15 @@ Record obs := mkO { o_next : N; o_pend : list (N * N); o_recv : list N; o_skip :
    late-sequence log, in arrival order).  Documents are in the channels [chf_bits] of their sequence number. *)
 Inductive case :=
 | Case (maxp initial : N) (steps : list (op * obs)) (star : list N) (late : list N)
-| XCase (maxp initial : N) (steps : list (xop * obs)) (chans : list (N * N * list N * list N)).
+| XCase (maxp initial : N) (steps : list (xop * obs)) (chans : list (N * N * list N * list N))
+(* DCase: a feed of real events pushed through changeListener.ProcessFeedEvent -> changeCache.DocChanged (documents
+   written to the bucket and read back with their xattrs and CAS, principal documents in the metadata store, unused-
+   sequence keys); observation after every event; at the end the late-sequence log of the "*" channel cache of the
+   documents' collection (the channel log itself keeps one entry per document id, which is C01's business).  [consistent] = the harness generated the feed as a consistent one: the
+   decision procedure for docs_consistent must then say yes (the theorems' hypothesis holds of what was run). *)
+| DCase (maxp initial : N) (steps : list (ditem * obs)) (late : list N) (consistent : bool)
+(* PCase: operations, then ONE call of processEntry with change.Skipped preset (C08_Refuted.stale_skipped_flag_...) *)
+| PCase (maxp initial : N) (pre : list op) (k : kind) (s : N) (aged : bool) (o : obs).
 
 Definition chf_bits (s : N) : list N :=
   (if N.odd s then [1] else []) ++ (if N.odd (s / 2) then [2] else []).
@@ -37,7 +46,7 @@ Definition obs_ok (old new : state) (o : obs) : bool :=
   (next new =? o_next o)
   && list_eqb pair_eqb (isort pair_leb (map (fun e => (e_seq e, e_end e)) (pending new))) (o_pend o)
   && list_eqb N.eqb (isort N.leb (received new)) (o_recv o)
-  && list_eqb pair_eqb (sk_norm (skipped new)) (o_skip o)
+  && list_eqb pair_eqb (skipped new) (o_skip o)
   && (stable new =? o_stable o)
   && list_eqb dlv_eqb (new_dl old new) (o_dl o).
 
@@ -45,6 +54,12 @@ Fixpoint steps_ok (st : state) (l : list (op * obs)) : option state :=
   match l with
   | [] => Some st
   | (o, ob) :: r => let st' := step st o in if obs_ok st st' ob then steps_ok st' r else None
+  end.
+
+Fixpoint dsteps_ok (st : state) (l : list (ditem * obs)) : option state :=
+  match l with
+  | [] => Some st
+  | (it, ob) :: r => let st' := dstep st it in if obs_ok st st' ob then dsteps_ok st' r else None
   end.
 
 Fixpoint xsteps_ok (x : xstate) (l : list (xop * obs)) : option xstate :=
@@ -75,6 +90,17 @@ Definition check (c : case) : bool :=
       | None => false
       | Some x => list_eqb chan_obs_eqb (map chan_obs (x_chans x)) chans
       end
+  | DCase m i steps late consistent =>
+      match dsteps_ok (init i m) steps with
+      | None => false
+      | Some st =>
+          let docs := rev (filter is_doc (delivered st)) in
+          list_eqb N.eqb (map d_seq (filter d_late docs)) late
+          && (negb consistent || docs_consistent_b i (map fst steps))
+      end
+  | PCase m i pre k s aged o =>
+      let st := run (init i m) pre in
+      obs_ok st (process_entry_gen true st (mkE s 0 k aged)) o
   end.
 
 Definition mismatches (cs : list case) : list N := failing check cs.
